@@ -70,18 +70,21 @@ Floorless(f) == f[1] = "f0" /\ f[2][2] # "nonuniform"
 \* everything the update of ONE mineral may depend on
 \* par.x = <<lambda*, (p, n) class>>: the remaining recrystallisation / rheology parameters
 StepKey(c, r, fl, par) == <<c.phase, c.fabric, r, c.n, fl, par.M, par.chi, Phi(c.phase, par), par.x>>
-NextO(prev, c, r, fl, par) ==
+\* `path` is the flow path of the deformation gradient handed in (and, through its length, the time origin of the
+\* call): the diffusion regime uses the spin of L.F, and in every regime F is part of the solver's state vector, so
+\* bit-for-bit results depend on it
+NextOP(prev, c, r, fl, par, path) ==
     IF NullReg(r) \/ fl = "zero" THEN prev.o
-    ELSE <<"upd", <<prev.o, prev.f, StepKey(c, r, fl, par)>>>>
+    ELSE <<"upd", <<prev.o, prev.f, StepKey(c, r, fl, par), path>>>>
 \* volume fractions stay put under null forcing, in the diffusion regime (zero volume rates)
 \* and with zero mobility - provided no grain sits under the sliding floor (otherwise the
 \* flooring of C09 legitimately moves them): chi = 0, or volumes that never left 1/n.
 FracFrozen(prevF, r, fl, par) ==
     /\ NullReg(r) \/ fl = "zero" \/ DiffusionReg(r) \/ par.M = 0
     /\ Floorless(prevF) \/ par.chi = 0
-NextF(prev, c, r, fl, par) ==
+NextFP(prev, c, r, fl, par, path) ==
     IF FracFrozen(prev.f, r, fl, par) THEN prev.f
-    ELSE <<"updf", <<prev.o, prev.f, StepKey(c, r, fl, par)>>>>
+    ELSE <<"updf", <<prev.o, prev.f, StepKey(c, r, fl, par), path>>>>
 
 Init == /\ cfg  = [m \in Minerals |-> NULL]
         /\ hist = [m \in Minerals |-> <<>>]
@@ -151,8 +154,8 @@ InSeq(m, ms) == \E k \in 1..Len(ms) : ms[k] = m
 \* `news` maps each updated mineral to its new snapshot [o, f] (model: NextO/NextF terms;
 \* trace: logged digests); each must satisfy ContentOK.
 ModelNews(fl, par) == [m \in Minerals |-> IF cfg[m] = NULL THEN <<>> ELSE
-                        [o |-> NextO(Last(hist[m]), cfg[m], cfg[m].regime, fl, par),
-                         f |-> NextF(Last(hist[m]), cfg[m], cfg[m].regime, fl, par)]]
+                        [o |-> NextOP(Last(hist[m]), cfg[m], cfg[m].regime, fl, par, Fm[m]),
+                         f |-> NextFP(Last(hist[m]), cfg[m], cfg[m].regime, fl, par, Fm[m])]]
 UpdateAllOk(ms, fl, par, news) ==
     /\ Tick /\ Log([a |-> "UpdateAllOk", ms |-> ms, fl |-> fl, par |-> par]) /\ Len(ms) >= 1 /\ AllOk(ms, fl, par) /\ SameF(ms)
     /\ \A k \in 1..Len(ms) : ContentOK(ms[k], cfg[ms[k]].regime, fl, par, news[ms[k]].o, news[ms[k]].f)
@@ -246,8 +249,8 @@ UpdNext(m) ==
     \E fl \in Flows, par \in Pars, cb \in Callbacks \cup {NoCb} :
         \/ (cfg[m] # NULL /\
             UpdateOk(m, fl, par, cb,
-                     NextO(Last(hist[m]), cfg[m], EffRegime(m, cb), fl, par),
-                     NextF(Last(hist[m]), cfg[m], EffRegime(m, cb), fl, par)))
+                     NextOP(Last(hist[m]), cfg[m], EffRegime(m, cb), fl, par, Fm[m]),
+                     NextFP(Last(hist[m]), cfg[m], EffRegime(m, cb), fl, par, Fm[m])))
         \/ UpdateRejected(m, fl, par, cb)
         \/ UpdatePhaseAbsent(m, fl, par, cb)
 
